@@ -54,6 +54,7 @@ def parseQ (s : Bytes) : QRes :=
   match strtod s with
   | .noConv => .bad
   | .unspec => .unspec
+  | .nonfinite => .bad                          -- !(val >= 0.0 && val <= 1.0): an infinity is out of range and a NaN fails every comparison
   | .dec d =>
     if d.mant = 0 then .ok 0 d.rest
     else if d.neg then .bad                     -- val < 0
